@@ -69,7 +69,7 @@ namespace fastscapelib
             if ((*p_jobs)[i] != nullptr)
             {
                 FSL_VERIF_POINT(verif::c_store, this, i, nullptr);
-                m_has_job[i].store(1, std::memory_order_relaxed);
+                m_has_job[i].store(1, std::memory_order_release);
             }
     }
 
@@ -131,7 +131,7 @@ namespace fastscapelib
         for (std::size_t i = 0; i < m_size; ++i)
         {
             FSL_VERIF_POINT(verif::c_load, this, i, nullptr);
-            if (m_has_job[i].load(std::memory_order_relaxed))
+            if (m_has_job[i].load(std::memory_order_acquire))
                 return false;
         }
         return true;
@@ -202,12 +202,12 @@ namespace fastscapelib
                         while (!m_stopped.load(std::memory_order_relaxed))
                         {
                             FSL_VERIF_POINT(verif::w_loop, this, i, nullptr);
-                            if (m_has_job[i].load(std::memory_order_relaxed))
+                            if (m_has_job[i].load(std::memory_order_acquire))
                             {
                                 FSL_VERIF_POINT(verif::w_job, this, i, nullptr);
                                 (*p_jobs)[i]();
                                 FSL_VERIF_POINT(verif::w_done, this, i, nullptr);
-                                m_has_job[i].store(0, std::memory_order_relaxed);
+                                m_has_job[i].store(0, std::memory_order_release);
                             }
                             FSL_VERIF_POINT(verif::w_endloop, this, i, nullptr);
                         }
